@@ -94,10 +94,23 @@ func NewPreciseVector(x, y, z float64) PreciseVector {
 
 // Vector returns this precise vector converted to a Vector.
 func (v PreciseVector) Vector() Vector {
+	// Scale the vector by a power of two so that its largest component has a
+	// magnitude in [0.5, 1). The result is normalized anyway, and without the
+	// scaling very small (or very large) components underflow (overflow) in the
+	// conversion to float64 or in the float64 Normalize below.
+	exp, nonZero := 0, false
+	for _, c := range []*big.Float{v.X, v.Y, v.Z} {
+		if c.Sign() != 0 && !c.IsInf() {
+			if e := c.MantExp(nil); !nonZero || e > exp {
+				exp, nonZero = e, true
+			}
+		}
+	}
+
 	// The accuracy flag is ignored on these conversions back to float64.
-	x, _ := v.X.Float64()
-	y, _ := v.Y.Float64()
-	z, _ := v.Z.Float64()
+	x, _ := new(big.Float).SetMantExp(v.X, -exp).Float64()
+	y, _ := new(big.Float).SetMantExp(v.Y, -exp).Float64()
+	z, _ := new(big.Float).SetMantExp(v.Z, -exp).Float64()
 	return Vector{x, y, z}.Normalize()
 }
 
